@@ -151,7 +151,7 @@ def make_replay(prop, u, r, byname, scratch, tier, log_dir, rdir, baseline):
             rec['confirmed'] = (rc is not None and rc != 0)
     else:
         rec['note'] = finder_note or 'the failing obligation is a contract/induction obligation; CBMC gives no concrete reachable input for it'
-    path = os.path.join(rdir, '%s-%s.json' % (prop, re.sub(r'[^A-Za-z0-9_.-]', '_', r['name'])))
+    path = os.path.join(rdir, '%s-%s.json' % (prop, core.safe_name(r['name'])))
     rec['path'] = path
     rec['how_to'] = './verif replay %s' % path
     with open(path, 'w') as fh:
